@@ -46,8 +46,14 @@ class BloomSystem(System):
             depth = 3
         if prop == "C06":
             depth = 3 if tier == "quick" else 5
-        if prop in ("C05", "C19", "C14") and tier == "thorough":
-            depth = 5
+        if tier == "thorough":
+            # sized so that a thorough run of one property stays well under half an hour on 16 cores
+            if prop in ("C05", "C19", "C06"):
+                depth, ns = 4, list(range(1, 13)) + [16, 24, 40]
+            elif prop == "C14":
+                depth = 4
+            else:
+                depth = 5
         if prop == "C14" and tier == "quick":
             depth = 4
         seen = set()
